@@ -64,6 +64,8 @@ ENGINES.append({"name": "query", "path": "lib/eng_query.py", "serves_properties"
                 "kind_free_text": "seeded corpora and query batteries on the real Memvid in six phases (pre-commit, committed, after deletes/updates, reopened rw/ro, after doctor rebuild); every query call is a trace event validated by TLC against Mv2Core + Mv2Query contracts"})
 ENGINES.append({"name": "det", "path": "lib/eng_det.py", "serves_properties": ["C23"],
                 "kind_free_text": "each history executed twice in separate processes; paired recording validated by TLC (Mv2Core + twin equality)"})
+ENGINES.append({"name": "worker", "path": "lib/eng_worker.py", "serves_properties": ["C41"],
+                "kind_free_text": "EnrichWorker TLA+ model (safety + liveness) and trace validation of real worker/foreground schedules recorded under the mutex"})
 NOT_YET = "check not built yet in this revision of the machinery (see DESIGN.md §12 for the build order)"
 NOT_APPLICABLE = {
     "C30": "pure encode/decode fidelity of byte layouts (bincode TOC, header, footer, time index): a TLA+ model would have to re-implement the codecs; outside what state-machine specification decides (DESIGN.md §7)",
@@ -118,6 +120,13 @@ CLAIMED = {
         "text": "Every history (seeded random put/update/delete/commit/reopen/vacuum/doctor/ticket sequences and a query corpus with its battery) is executed twice; TLC validates the first execution against Mv2Core and, at every call, requires the second execution's result and full logical observation (frame table with payload ids, embeddings, links, descriptive fields, log numbers, ticket, stats, query hits) to be identical; file digests after every call are compared too.",
         "note": "Byte identity fails on the pinned tree (known finding F23-bytes-differ); logical identity is what the check enforces. Trusts TLC and the harness projection.",
         "design_ref": "DESIGN.md §6 C23",
+    },
+    "C41": {
+        "engine": "worker",
+        "technique": "TLA+ specification of worker and foreground critical sections (EnrichWorker) model-checked by TLC including liveness under weak fairness; real worker runs recorded at linearisation points (hook events under the mutex) and validated by TLC against the specification",
+        "text": "TLC explores every interleaving of the worker's critical sections (get task, process, complete, checkpoint, exit) with foreground puts, commits, searches, deletes and the stop request for up to 3-4 puts, checking that no frame is lost, only queued frames change state, each at most once, a drained queue leaves every active queued frame Enriched, and that the worker stops when asked (weak fairness). The real start_enrichment_worker then runs under seeded schedule perturbation; every critical section of both threads is recorded under the Mutex<Memvid> with the queue and every frame's status / enrichment state, and TLC must find a model action for each event, with the invariants evaluated on every observed state.",
+        "note": "Trusts TLC and the hook placement (events inside the closures of start_enrichment_worker, yield points between them). Schedule perturbation samples interleavings; exhaustiveness comes from the model only. The embedding-generating worker variant is not exercised.",
+        "design_ref": "DESIGN.md §4.6, §6 C41",
     },
     "C05": {
         "engine": "walring",
